@@ -9,6 +9,7 @@ from typing import Any, Dict, Optional
 from xml.sax.saxutils import quoteattr
 
 import jinja2
+import markupsafe
 
 import odxtools
 
@@ -45,6 +46,17 @@ def make_xml_attrib(attrib_name: str, attrib_val: Optional[Any]) -> str:
         return ""
 
     return f' {attrib_name}={quoteattr(str(attrib_val))}'
+
+
+def escape_xml_text(value: Any) -> str:
+    """The `|e` filter of the templates: besides the XML meta characters, tabs and line breaks are
+    written as character references. Otherwise line breaks in a text get re-indented by the
+    `indent` filter, and white space in attribute values is normalized to blanks when the file is
+    read again."""
+    result = str(markupsafe.escape(value))
+    for char in "\t\n\r":
+        result = result.replace(char, f"&#{ord(char)};")
+    return markupsafe.Markup(result)
 
 
 def make_bool_xml_attrib(attrib_name: str, attrib_val: Optional[bool]) -> str:
@@ -141,6 +153,7 @@ def write_pdx_file(
                 out_file.write(data_file.read())
 
         jinja_env = jinja2.Environment(loader=jinja2.FileSystemLoader(templates_dir))
+        jinja_env.filters["e"] = jinja_env.filters["escape"] = escape_xml_text
         jinja_env.globals["getattr"] = getattr
         jinja_env.globals["hasattr"] = hasattr
         jinja_env.globals["odxraise"] = jinja2_odxraise_helper
